@@ -21,6 +21,20 @@ CHECKS = {
         "of the real mesh, the boundary/glue flags and the at-most-two / symmetric / non-empty clauses are recorded and "
         "judged by TLC against the geometric neighbour rule of STMesh.tla; long random histories likewise.",
    note="Bounded as C02. Trusted: TLC, the projection."),
+ "C06": dict(level="model_checking", design="§5 C06", engine="stmesh",
+   technique="TLC model checking of Dorfler.tla (marking loop) and of the Doerfler actions of STMesh.tla + replay of every model state into the real mesh + TLC-judged traces",
+   text="Dorfler.tla enumerates every integer indicator vector (0..3 on 4 contributions, six values of theta^2): loop == declarative shortest "
+        "prefix, shortest, exists; every state is executed on two real meshes and the observed marked sets and resulting meshes are judged by TLC. "
+        "STMesh's DorflerIso/DorflerAniso are explored from every mesh within a budget for all marked pairs (|Mt|+|Ms|<=3): sequential level-sorted "
+        "loops == declarative double closure, no assertion reachable, for every processing order of equally ranked elements (DorflerAnyOrder), "
+        "and the graph equals the real graph. Random interleaved histories judged by TraceSTMesh.",
+   note="Indicators are small integers (exact in double); theta-knife-edges for non-dyadic theta excluded and counted; all-zero vector accepted either way. Trusted: TLC, projection, runtime wrapper observing top-level refine_axis calls."),
+ "C19": dict(level="model_checking", design="§5 C19", engine="stmesh",
+   technique="TLC model checking of STMesh.Grade (code-shaped sweep loop) + graph equality with real refine_grading + TLC-judged graded meshes",
+   text="From every mesh within a primitive-bisection budget on five root layouts and sigma in {1, 1.5, 2}: STMesh.Grade terminates with all leaves "
+        "in the integer window, only refines, invariants hold; graph (including the graded meshes) equals the real graph; graded real meshes after "
+        "random histories (uniform and non-uniform root grids) are judged by TLC (window with per-root thresholds, tiling, 1-irregularity).",
+   note="Window tests in integer form with thresholds computed at 50 digits; graded meshes above a leaf cap dropped and counted. Trusted: TLC, projection, mpmath."),
 }
 
 NOT_YET = {}
